@@ -333,7 +333,7 @@ static int pts_descend(const void *pa, const void*pb) {
     EbObjectWrapper* b = *(EbObjectWrapper**)pb;
     EbBufferHeaderType *ba = (EbBufferHeaderType *)(a->object_ptr);
     EbBufferHeaderType *bb = (EbBufferHeaderType *)(b->object_ptr);
-    return (int)(bb->pts - ba->pts);
+    return (bb->pts > ba->pts) - (bb->pts < ba->pts);
 }
 
 static void push_undisplayed_frame(EncodeContext *encode_context_ptr, EbObjectWrapper *wrapper) {
